@@ -35,6 +35,7 @@ type ReadLog struct {
 	Data []byte
 	N    int
 	Err  error
+	Seq  int // global sequence number (Script.Seq), 0 if not tracked
 }
 
 // Script is the state shared by ScriptConn and ScriptPort.
@@ -48,6 +49,10 @@ type Script struct {
 	// IdleErr: what an idle read (script exhausted) returns besides sleeping: "timeout" (net), "empty" (serial)
 	IdleKind string
 	IdleWait time.Duration
+
+	// Seq, if set, is a shared event counter: every transport call takes the next number
+	Seq       *int
+	WriteSeqs []int
 
 	Writes [][]byte
 	Reads  []ReadLog
@@ -74,6 +79,10 @@ func (s *Script) write(b []byte) (int, error) {
 	s.mu.Lock()
 	defer s.mu.Unlock()
 	s.Writes = append(s.Writes, append([]byte(nil), b...))
+	if s.Seq != nil {
+		*s.Seq++
+		s.WriteSeqs = append(s.WriteSeqs, *s.Seq)
+	}
 	if s.WriteErr {
 		return 0, ErrWrite
 	}
@@ -81,7 +90,12 @@ func (s *Script) write(b []byte) (int, error) {
 }
 
 func (s *Script) logRead(p []byte, n int, err error) (int, error) {
-	s.Reads = append(s.Reads, ReadLog{Data: append([]byte(nil), p[:n]...), N: n, Err: err})
+	seq := 0
+	if s.Seq != nil {
+		*s.Seq++
+		seq = *s.Seq
+	}
+	s.Reads = append(s.Reads, ReadLog{Data: append([]byte(nil), p[:n]...), N: n, Err: err, Seq: seq})
 	return n, err
 }
 
